@@ -351,6 +351,7 @@ def run(ctx, name, kind, **kw):
         S.first_use_purity(ctx, lambda M: S.codes_of(M.numbertheory, {"is_prime", "next_prime", "factorization", "gcd", "gcd2", "lcm", "lcm2"}) +
                            [c for c in S.codes_of(M.numbertheory) if c.co_name.startswith("_")],
                            lambda M: [(lab, getattr(M.numbertheory, lab), args, exp) for lab, args, exp in spec], rng, kw["runs"])
+        S.first_use_systematic(ctx, lambda M: S.stateful_codes(M.numbertheory), lambda M: [(lab, getattr(M.numbertheory, lab), args, exp) for lab, args, exp in spec], rng, max(3, kw["runs"] // 8))
     elif kind == "seams":
         # block / window sizes written into next_prime's own code are candidate seams: for each integer literal c found there, take
         # prime gaps LONGER than c (found with the reference at a size where such gaps are common) and ask for the next prime from
